@@ -18,6 +18,7 @@ package react
 
 import (
 	"context"
+	"errors"
 	"io"
 
 	"github.com/cloudwego/eino/components/model"
@@ -33,6 +34,11 @@ type state struct {
 	// the position in the tools node's answer) of the call to a return-directly tool, -1 if there is none.
 	// The id alone cannot tell: tool calls may come without id.
 	ReturnDirectlyToolCallIndex int
+}
+
+func init() {
+	// the agent's graph can be exported and nested into a graph with a checkpoint store: its state must be serialisable
+	_ = compose.RegisterSerializableType[state]("_eino_react_state")
 }
 
 const (
@@ -212,6 +218,13 @@ func NewAgent(ctx context.Context, config *AgentConfig) (_ *Agent, err error) {
 	}
 
 	toolsNodePreHandle := func(ctx context.Context, input *schema.Message, state *state) (*schema.Message, error) {
+		if input == nil {
+			// re-run after an interrupt a tool asked for: the assistant message is the last one recorded
+			if len(state.Messages) == 0 {
+				return nil, errors.New("tools node re-run without a recorded assistant message")
+			}
+			return state.Messages[len(state.Messages)-1], nil
+		}
 		state.Messages = append(state.Messages, input)
 		state.ReturnDirectlyToolCallIndex = getReturnDirectlyToolCallIndex(input, config.ToolReturnDirectly)
 		state.ReturnDirectlyToolCallID = ""
